@@ -5,6 +5,10 @@ atoms.  Used to decide, on representative shapes, which atom lands where."""
 import itertools
 
 
+class ShapeMismatch(Exception):
+  """numpy would raise ValueError: dimensions do not match"""
+
+
 class MArr:
   def __init__(self, shape, flat):
     self.shape = tuple(shape)
@@ -120,8 +124,12 @@ def concatenate(seq, axis=0):
                 [x for a in arrs for x in a.flat])
   if all(a.ndim == 2 for a in arrs):
     if axis == 0:
+      if len(set(a.shape[1] for a in arrs)) > 1:
+        raise ShapeMismatch('concatenate axis 0')
       return MArr.of([r.flat for a in arrs for r in a.rows()])
     if axis == 1:
+      if len(set(a.shape[0] for a in arrs)) > 1:
+        raise ShapeMismatch('concatenate axis 1')
       n = arrs[0].shape[0]
       return MArr.of([[x for a in arrs for x in a.rows()[i].flat]
                       for i in range(n)])
